@@ -437,6 +437,7 @@ class Normalizer:
                     self.generic_visit(c)
                     r = me.resolve(c, modname, cls, self_name)
                     if r is None:
+                        me._kw_by_name(c)
                         return c
                     fd, recv = r
                     if fd.qual in me.candidates and fd.node is not fn:
@@ -510,6 +511,40 @@ class Normalizer:
         fn.body = stmt_pass(fn.body)
         expr_pass(fn)
         return changed
+
+    def _kw_by_name(self, c: ast.Call):
+        """`obj.method(a=.., b=..)` on a receiver that cannot be resolved syntactically: when every package method of that name
+        whose signature accepts the call puts the arguments in the same positional order, rewrite to that order"""
+        if not c.keywords or any(k.arg is None for k in c.keywords) or not isinstance(c.func, ast.Attribute) or \
+                any(isinstance(a, ast.Starred) for a in c.args):
+            return
+        name = c.func.attr
+        results = []
+        for clsname, methods in self.by_class.items():
+            fd = methods.get(name)
+            if fd is None or fd.kind != 'method' or fd.has_star:
+                continue
+            params = fd.params[1:]
+            kw = {k.arg: k.value for k in c.keywords}
+            if not all(k in params for k in kw) or len(c.args) > len(params):
+                continue
+            args = list(c.args)
+            ok = True
+            for p in params[len(args):]:
+                if p in kw:
+                    args.append(kw.pop(p))
+                elif kw:
+                    if p in fd.defaults:
+                        args.append(copy.deepcopy(fd.defaults[p]))
+                    else:
+                        ok = False
+                        break
+                else:
+                    break
+            if ok and not kw:
+                results.append(args)
+        if results and all([ast.dump(a) for a in r] == [ast.dump(a) for a in results[0]] for r in results):
+            c.args, c.keywords = results[0], []
 
     def _local_constants(self):
         """a local with a name the baseline function does not have, assigned exactly once, by a top-level statement of the
